@@ -34,14 +34,22 @@ EXPLANATION = (
     "get_jacobian_func, on every CFG path (interprocedurally, callee by callee) the first state-observing use of a per-compilation "
     "container is preceded by a statement that resets it on all of its own paths.  R4: a value reached through a shallow copy of a "
     "dict-of-dicts registry (`*_funcs.copy()` stored in `self._funcs`) is never written unless it was copied first; the flow is "
-    "followed through locals, parameters, `self.<attr>` and return values.  NOT decided: equality of results; injectivity of a key "
+    "followed through locals, parameters, `self.<attr>` and return values.  R7: reset coupling - a global container that hands out "
+    "names depending on its own mutation history (passed to a callee that advances it, or `G[k] op= v`: a label counter) is a name "
+    "generator; the names are followed (value flow only: aliases, tuple results, string building, returned to call sites, call "
+    "arguments -> parameters -> `self.<attr>` of the constructed class family) into the keys of global caches; every run-time reset "
+    "of the generator must be accompanied, on every path through the resetting function (a resetting statement dominates it or "
+    "lies on every path to the exit; private helpers are judged at their call sites), by a reset of every cache so keyed - else a "
+    "later model draws a name that still has an entry.  R8 (= C02-R8): a backend only ever switches the process-wide 64-bit mode on.  "
+    "NOT decided: names that reach a cache key through a container or an object other than a constructed instance's attribute; equality of results; injectivity of a key "
     "(a key that is a lossy function of the right inputs passes R2); control dependence of cached values (only data flow is "
     "sliced; a method call counts as depending on its whole receiver); state held by instances (ComputeGraph._state_var_hist etc., "
     "listed as information: discarded with the object); aliasing of a cached template object handed to the user (C14); files on "
     "disk; the namespace writes of exec(..., globals()) (listed, see triage/probes/p16.py); the Matlab/Julia engines' own caches."
 )
 RULE_TEXT = ("instances = every discovered global container (R1), every keyed cache function (R2), every (per-compilation container, "
-             "compile entry) pair (R3), every function that receives a value through the shallow registry copy (R4); non-trivial = "
+             "compile entry) pair (R3), every function that receives a value through the shallow registry copy (R4), every (name generator, cache keyed by its names, "
+             "reset site of the generator) triple (R7); non-trivial = "
              "needed the whole-repo use analysis, a call-graph closure, a def-use slice or a CFG path argument.")
 ASSUMPTIONS = [
     "Mutation of a global container happens only through the syntactic forms of MUTATORS / subscript store / del / augmented "
@@ -2072,6 +2080,252 @@ def r6_stale_layout_dropped_before_use(ctx, rid):
     r4_positions_inside_backend_variable(ctx, rid)
 
 
+
+# =====================================================================================================================
+# R7  a name generator is reset only together with the caches keyed by the names it generated
+# =====================================================================================================================
+
+class NameFlow:
+    """Which global caches are keyed by values drawn from the mutation history of a global container G (a counter of labels: the
+    value handed out depends on what was handed out before, so it is unique only as long as G remembers)?  The flow is followed
+    from the function that draws the value (G passed to a callee that mutates it, or `G[k] op= v` in place) into cache keys of that
+    function, and through call arguments -> parameters -> `self.<attr>` of the constructed class family -> cache keys in the
+    methods of that family."""
+
+    def __init__(self, ctx, rid):
+        self.ctx, self.rid, self.md = ctx, rid, model(ctx)
+        self.couplings: Dict[Tuple[str, str], List[str]] = {}       # (generator key, cache key) -> provenance chain
+        self._slicers: Dict[FunctionInfo, Slicer] = {}
+        self._seen: Set[tuple] = set()
+
+    def sl(self, f) -> "Slicer":
+        if f not in self._slicers:
+            self._slicers[f] = Slicer(self.ctx, f)
+        return self._slicers[f]
+
+    def keyed_stores(self, f):
+        """(container, event) for every keyed store into a global container in f"""
+        out = []
+        for c in self.md.containers.values():
+            if c.kind not in ("module", "class"):
+                continue
+            for e in c.events:
+                if e.f is f and e.kind == "store" and e.key is not None:
+                    out.append((c, e))
+        return out
+
+    STRING_METHODS = {"format", "join", "strip", "lstrip", "rstrip", "lower", "upper", "replace", "removeprefix", "removesuffix", "title"}
+
+    def name_taint(self, f, seeds, param=None, seed_pos=None):
+        """Predicate: is this expression of f a generated name (or text built from one)?  Seeds are the expressions that draw the
+        value (or the parameter that receives it).  Only values are followed - names, tuple unpacking, string building, conditional
+        expressions - not objects that merely hold a name (those are followed as constructor arguments -> fields)."""
+        rd = self.ctx.rd(f)
+        seed_ids = {id(x) for x in seeds}
+        seed_pos = seed_pos or {}               # id(seed call) -> positions of its tuple result that are names (None: all)
+        memo: Dict[int, bool] = {}
+
+        def T(x, depth=0):
+            if x is None or depth > 12:
+                return False
+            if id(x) in seed_ids:
+                return True
+            if id(x) in memo:
+                return memo[id(x)]
+            memo[id(x)] = False
+            r = False
+            if isinstance(x, ast.Name):
+                if self.md._shadowed(f, x.id):
+                    for d in rd.defs_reaching(x):
+                        if isinstance(d, ast.arguments):
+                            r = r or (param is not None and x.id == param)
+                        elif isinstance(d, (ast.Assign, ast.AnnAssign)) and d.value is not None:
+                            for tg in (d.targets if isinstance(d, ast.Assign) else [d.target]):
+                                if isinstance(tg, ast.Name) and tg.id == x.id:
+                                    r = r or T(d.value, depth + 1)
+                                elif isinstance(tg, (ast.Tuple, ast.List)) and any(isinstance(t, ast.Name) and t.id == x.id for t in tg.elts):
+                                    if isinstance(d.value, (ast.Tuple, ast.List)) and len(d.value.elts) == len(tg.elts):
+                                        i = [isinstance(t, ast.Name) and t.id == x.id for t in tg.elts].index(True)
+                                        r = r or T(d.value.elts[i], depth + 1)
+                                    elif id(d.value) in seed_pos and seed_pos[id(d.value)] is not None:
+                                        i = [isinstance(t, ast.Name) and t.id == x.id for t in tg.elts].index(True)
+                                        r = r or i in seed_pos[id(d.value)]
+                                    else:
+                                        r = r or T(d.value, depth + 1)
+            elif isinstance(x, ast.JoinedStr):
+                r = any(T(v.value, depth + 1) for v in x.values if isinstance(v, ast.FormattedValue))
+            elif isinstance(x, ast.BinOp) and isinstance(x.op, (ast.Add, ast.Mod)):
+                r = T(x.left, depth + 1) or T(x.right, depth + 1)
+            elif isinstance(x, ast.IfExp):
+                r = T(x.body, depth + 1) or T(x.orelse, depth + 1)
+            elif isinstance(x, ast.Subscript):
+                r = T(x.value, depth + 1)
+            elif isinstance(x, ast.Tuple) and isinstance(parent(x), ast.BinOp):
+                r = any(T(e, depth + 1) for e in x.elts)                     # "..." % (a, b)
+            elif isinstance(x, ast.Call):
+                if isinstance(x.func, ast.Name) and x.func.id in ("str", "repr", "format") and not self.md._shadowed(f, x.func.id):
+                    r = any(T(a, depth + 1) for a in x.args)
+                elif isinstance(x.func, ast.Attribute) and x.func.attr in self.STRING_METHODS:
+                    r = T(x.func.value, depth + 1) or any(T(a, depth + 1) or (isinstance(a, (ast.Tuple, ast.List)) and any(T(e, depth + 1) for e in a.elts))
+                                                          for a in x.args)
+            memo[id(x)] = r
+            return r
+        return T
+
+    def run(self, g: Container, sites: List[Event]):
+        for f in sorted({e.f for e in sites}, key=lambda x: x.qual):
+            seeds = [e.node for e in sites if e.f is f and e.kind == "argmut"]
+            if any(e.f is f and e.kind == "aug" for e in sites):
+                # the counter is advanced in place: what is read from it in this function is the drawn value
+                seeds += [e.node for e in g.events if e.f is f and e.kind == "keyread"]
+            self.scan(f, self.name_taint(f, seeds), g, [], None, 0)
+
+    def scan(self, f, tainted, g, chain, cls, depth):
+        """f holds generated names in the expressions that satisfy `tainted`; cls = the class under construction when f runs as
+        (part of) a constructor"""
+        for c, e in self.keyed_stores(f):
+            if c is not g and tainted(e.key):
+                self.couple(g, c, chain + [f"{f.qualname}: key `{norm(e.key)}` of `{norm(e.node)}`"])
+        # a generated name that is returned: the call sites of f draw it
+        rets = [n for n in walk_shallow(f.node) if isinstance(n, ast.Return) and n.value is not None]
+        pos: Optional[Set[int]] = set()
+        for r in rets:
+            if isinstance(r.value, ast.Tuple):
+                hit = {i for i, x in enumerate(r.value.elts) if tainted(x)}
+                if pos is not None:
+                    pos |= hit
+            elif tainted(r.value):
+                pos = None
+        if (pos is None or pos) and depth < 4:
+            for h, cs in self.ctx.cg.call_sites_of(f):
+                k = (g.key, h.qual, "returned by " + f.qual, getattr(cs, "lineno", 0), getattr(cs, "col_offset", 0))
+                if h == f or k in self._seen:
+                    continue
+                self._seen.add(k)
+                self.scan(h, self.name_taint(h, [cs], seed_pos={id(cs): pos}), g,
+                          chain + [f"{f.qualname} returns the name to {h.qualname} (`{norm(cs, 60)}`)"], None, depth + 1)
+        for n in walk_shallow(f.node):
+            if isinstance(n, (ast.Assign, ast.AnnAssign)) and n.value is not None and cls is not None and tainted(n.value):
+                for tg in (n.targets if isinstance(n, ast.Assign) else [n.target]):
+                    if isinstance(tg, ast.Attribute) and self.md._is_self(f, tg.value):
+                        self.field(cls, tg.attr, g, chain + [f"{f.qualname}: `{norm(n)}`"])
+            elif isinstance(n, ast.Call) and depth < 4:
+                args = [(a, None, i) for i, a in enumerate(n.args) if not isinstance(a, ast.Starred)] + \
+                       [(k.value, k.arg, None) for k in n.keywords if k.arg is not None]
+                targs = [(a, kw, pos) for a, kw, pos in args if tainted(a)]
+                if not targs:
+                    continue
+                is_super = isinstance(n.func, ast.Attribute) and isinstance(n.func.value, ast.Call) and call_name(n.func.value) == "super"
+                k0 = self.ctx.repo.resolve_expr(f.module, n.func) if isinstance(n.func, (ast.Name, ast.Attribute)) else None
+                ncls = cls if is_super else (k0 if isinstance(k0, ClassInfo) else None)
+                for t in self.md.ext_resolve(f, n)[0]:
+                    for a, kw, pos in targs:
+                        pn = self.md._param_for(t, n, kw, pos)
+                        if pn is None or pn not in t.params:
+                            continue
+                        k = (g.key, t.qual, pn, ncls.qual if ncls is not None else None)
+                        if k in self._seen:
+                            continue
+                        self._seen.add(k)
+                        self.scan(t, self.name_taint(t, [], param=pn), g,
+                                  chain + [f"{f.qualname}: `{norm(n, 80)}` -> {t.qualname}({pn})"], ncls, depth + 1)
+
+    def field(self, k: ClassInfo, attr: str, g, chain):
+        fam = set(k.mro) | set(self.ctx.repo.subclasses(k))
+        for kk in sorted(fam, key=lambda x: x.qual):
+            for m in kk.methods.values():
+                if m.self_name is None or m.is_classmethod:
+                    continue
+                acc = [(c, e) for c, e in self.keyed_stores(m) if c is not g]
+                if not acc:
+                    continue
+                path = f"{m.self_name}.{attr}"
+                sl = self.sl(m)
+                for c, e in acc:
+                    kr = sl.roots(e.key)
+                    if path in kr or m.self_name in kr:
+                        self.couple(g, c, chain + [f"{m.qualname}: key `{norm(e.key)}` of `{norm(e.node)}` is built from self.{attr}"])
+
+    def couple(self, g, c, chain):
+        self.couplings.setdefault((g.key, c.key), chain)
+
+
+def r7_generator_reset_with_its_caches(ctx, rid):
+    """A label counter G hands out names that are unique only relative to what it remembers.  Where such names become keys of a
+    process-wide cache C, forgetting G (reset) while C keeps its entries makes a later model draw a name that still has an entry:
+    it inherits the cached value of an earlier model.  So every reset of G must be accompanied - on every path through the
+    resetting function - by a reset of every cache keyed by G's names."""
+    md = model(ctx)
+    nf = NameFlow(ctx, rid)
+    gens = []
+    for key in sorted(md.containers):
+        g = md.containers[key]
+        if g.kind not in ("module", "class"):
+            continue
+        fx = facts_of(ctx, g)
+        sites = [e for e in fx.runtime if e.kind in ("argmut", "aug")]
+        if sites:
+            gens.append(g)
+            nf.run(g, sites)
+    ctx.require(gens, f"{rid}: no global container is used as a name generator (counter handed to a function that advances it)")
+    ctx.require(nf.couplings, f"{rid}: no global cache keyed by generated names was found (anchor: the generated input operator's name is "
+                              f"the key of OperatorTemplate.cache on the pinned tree)")
+    for (gk, ck), chain in sorted(nf.couplings.items()):
+        g, c = md.containers[gk], md.containers[ck]
+        rb = ResetBeforeUse(ctx, c)
+        resets = [e for e in facts_of(ctx, g).resets if e.f is not None]
+        facts = {"generator": gk, "cache": ck, "flow": chain, "cache_resets": _sites(facts_of(ctx, c).resets)}
+        if not resets:
+            ctx.info(rid, None, None, f"{ck} is keyed by names generated from {gk}, which is never reset at run time: names only grow",
+                     construct=f"{gk} -> {ck}::generator never reset", loc=g.loc)
+            continue
+        for e in sorted(resets, key=lambda e: (e.f.qual, getattr(e.node, "lineno", 0))):
+            w = _uncoupled(ctx, rb, e.f, e.node, 2)
+            label = f"reset of {gk} in {e.f.qualname} also resets {ck}"
+            if w is None:
+                ctx.ok(rid, e.f, e.node, f"whenever {e.f.qualname} forgets the generated names of `{gk}`, the cache `{ck}` keyed by them is "
+                                         f"emptied as well", facts, label=label)
+            else:
+                h, node = w
+                ctx.violation(rid, e.f, e.node, f"`{norm(e.node)}` in {e.f.qualname} restarts the name generator `{gk}` on a path "
+                              f"{'through ' + h.qualname + ' ' if h is not e.f else ''}that does not empty `{ck}`, the cache keyed by the names it "
+                              f"generates ({'; '.join(chain)}): the next model draws a name that still has an entry and silently receives the "
+                              f"value cached for an earlier model", facts, label=label)
+
+
+def _uncoupled(ctx, rb: "ResetBeforeUse", h: FunctionInfo, node, depth):
+    """None when every execution of `node` in h is accompanied by a reset of rb's container (a resetting statement dominates it or
+    lies on every path from it to the exit); for a private helper without such a statement every call site is asked instead.
+    Else (function, node) of the uncovered site."""
+    cfg = ctx.cfg(h)
+    st = stmt_of(cfg, node)
+    if st is None:
+        raise AnalysisError(f"C13-R7: cannot locate `{norm(node)}` in the control flow of {h.qual}")
+    if rb.must_reset_stmt(h, cfg, st) and not isinstance(st, (ast.If, ast.While, ast.For)):
+        return None                                   # the same statement (e.g. one helper call) resets both
+    is_reset = lambda n: n is not st and rb.must_reset_stmt(h, cfg, n)
+    if any(is_reset(n) and cfg.dominates(n, st) for n in cfg.stmts()):
+        return None
+    if cfg.must_pass(st, is_reset) is None:
+        return None
+    if depth > 0 and h.name.startswith("_") and not h.name.startswith("__"):
+        sites = [(g, cs) for g, cs in ctx.cg.call_sites_of(h) if g != h]
+        if sites:
+            for g, cs in sites:
+                w = _uncoupled(ctx, rb, g, cs, depth - 1)
+                if w is not None:
+                    return w
+            return None
+    return (h, node)
+
+
+def r8_process_global_precision_switch(ctx, rid):
+    """A backend may only ever switch the process-wide 64-bit mode ON (constant True): a per-instance value makes the results of
+    models compiled earlier depend on which backend was created last (same rule as C02-R8)."""
+    from .c02 import r8_global_precision_switches
+    r8_global_precision_switches(ctx, rid)
+
+
 RULES = [
     ("C13-R1", r1_inventory, 25),
     ("C13-R2", r2_cache_keys, 5),
@@ -2079,4 +2333,6 @@ RULES = [
     ("C13-R4", r4_registry_copies, 3),
     ("C13-R5", r5_template_compile_state_rebound, 2),
     ("C13-R6", r6_stale_layout_dropped_before_use, 2),
+    ("C13-R7", r7_generator_reset_with_its_caches, 1),
+    ("C13-R8", r8_process_global_precision_switch, 1),
 ]
